@@ -53,21 +53,24 @@ type Task struct {
 	Name string
 	idx  int
 
-	goid        uint64
-	wake        chan struct{}
-	state       int32
-	point       string
-	preemptible bool
-	gateBlocked bool
-	gateFails   int // consecutive failed probes of the current gate
-	gateWait    int // steps by other tasks to sit out before the next probe (exponential back-off)
-	daemon      bool
-	prio        uint64 // polPriority: larger runs first; demoted tasks get small values
-	auto        bool
-	spawned     bool      // a library-started goroutine adopted at its first statement (lazyGo)
-	settling    bool      // parked in Settle: only released when no other task is eligible
-	wakeAt      time.Time // Sleep: not eligible before this (fake) time
-	noPark      bool      // task-level switch: plain yield points do not park (gates still do)
+	goid          uint64
+	wake          chan struct{}
+	state         int32
+	point         string
+	preemptible   bool
+	gateBlocked   bool
+	gateFails     int // consecutive failed probes of the current gate
+	gateWait      int // steps by other tasks to sit out before the next probe (exponential back-off)
+	daemon        bool
+	prio          uint64 // polPriority: larger runs first; demoted tasks get small values
+	auto          bool
+	spawned       bool // a library-started goroutine adopted at its first statement (lazyGo)
+	unnamed       bool // (spawned) not named yet: see nameSpawned
+	site          int  // (spawned) index of the point it was adopted at
+	prioInherited bool
+	settling      bool      // parked in Settle: only released when no other task is eligible
+	wakeAt        time.Time // Sleep: not eligible before this (fake) time
+	noPark        bool      // task-level switch: plain yield points do not park (gates still do)
 
 	done chan struct{} // closed (visibly to the race detector) when the task finishes
 
@@ -370,6 +373,9 @@ func (w *World) anyTask(g uint64) *Task {
 }
 
 //go:norace
+func (w *World) pointName(i int) string { return w.pointNames[i] }
+
+//go:norace
 func (w *World) pointIndex(point string) int {
 	n := int(ldi32(&w.npoints))
 	for i := 0; i < n; i++ {
@@ -521,14 +527,52 @@ func (w *World) adoptSpawned(point string, g uint64) {
 		return
 	}
 	addi64(&w.pointHits[pi], 1)
-	k := addi32(&w.spawnSeq[pi], 1)
-	t := &Task{W: w, Name: fmt.Sprintf("%s#%d", strings.TrimPrefix(point, "auto:"), k), goid: g, wake: make(chan struct{}), done: make(chan struct{}), daemon: true, spawned: true}
+	// The task gets its name ("<site>#<k>") when the scheduler next looks (nameSpawned), not here: in which order sibling
+	// goroutines reach their first statement is up to the Go scheduler (the last one started usually runs first; a spawner
+	// that the runtime preempts in the middle of its loop changes that), whereas their goroutine ids follow the order in
+	// which they were started.
+	t := &Task{W: w, Name: "", goid: g, wake: make(chan struct{}), done: make(chan struct{}), daemon: true, spawned: true, unnamed: true, site: pi}
 	sti32(&t.state, stRunning)
 	w.addTask(t)
 	if p := w.anyTask(parentGoid()); p != nil {
 		t.prio = p.prio // priority policy: a goroutine continues the activity of the one that started it
+		t.prioInherited = true
 	}
 	t.park("start", true)
+}
+
+// nameSpawned names the goroutines adopted since the scheduler last looked, in the order of their goroutine ids.
+//
+//go:norace
+func (w *World) nameSpawned() {
+	n := int(ldi32(&w.ntasks))
+	var pendBuf [maxTasks]*Task
+	pend := pendBuf[:0]
+	for i := 0; i < n; i++ {
+		if t := w.tasks[i]; t.unnamed {
+			pend = append(pend, t)
+		}
+	}
+	if len(pend) == 0 {
+		return
+	}
+	for i := 1; i < len(pend); i++ { // (insertion sort: short, and no closures in kernel code)
+		for j := i; j > 0 && pend[j-1].goid > pend[j].goid; j-- {
+			pend[j-1], pend[j] = pend[j], pend[j-1]
+		}
+	}
+	for _, t := range pend {
+		k := addi32(&w.spawnSeq[t.site], 1)
+		t.Name = fmt.Sprintf("%s#%d", strings.TrimPrefix(w.pointName(t.site), "auto:"), k)
+		t.unnamed = false
+		if !t.prioInherited {
+			h := uint64(14695981039346656037)
+			for i := 0; i < len(t.Name); i++ {
+				h = (h ^ uint64(t.Name[i])) * 1099511628211
+			}
+			t.prio = 1<<32 + splitmix(w.salt<<16^h)>>33
+		}
+	}
 }
 
 // anyParked reports whether some task is parked at a scheduling point.
@@ -764,6 +808,7 @@ type parkedInfo struct {
 
 //go:norace
 func (w *World) collect(elig []parkedInfo) (out []parkedInfo, blockedGates int, running int, unfinished int) {
+	w.nameSpawned()
 	out = elig[:0]
 	var settlingBuf [8]parkedInfo
 	settling := settlingBuf[:0]
